@@ -125,6 +125,15 @@ impl MillerLoopResult for Fq12 {
     }
 }
 
+/// Verification hook (feature `verif-hooks`, add-only): the `Fq12` value wrapped by a `Gt`.
+#[cfg(feature = "verif-hooks")]
+impl Gt {
+    /// verif hook: the wrapped element of the degree-12 extension.
+    pub fn verif_fq12(&self) -> Fq12 {
+        self.0
+    }
+}
+
 pub fn multi_miller_loop(terms: &[(&G1Affine, &G2Affine)]) -> Fq12 {
     let terms = terms
         .iter()
